@@ -37,6 +37,8 @@ impl DailyMutations {
     }
 
     pub fn write(&self, conn: &Connection) -> std::result::Result<(), rusqlite::Error> {
+        #[cfg(feature = "verif")]
+        crate::verif_hooks::fault("marks.write")?;
         let mut node_daily_stmt = conn.prepare_cached(
             "INSERT INTO _daily_log (
                     room_id,
